@@ -42,6 +42,9 @@ class Terms:
                 merged[-1] = ("CONST", merged[-1][1] + p[1])
             else:
                 merged.append(p)
+        # the empty string is the unit of concatenation
+        if len(merged) > 1:
+            merged = [p for p in merged if not (p[0] == "CONST" and len(p[1]) == 0)] or [merged[0]]
         if len(merged) == 1:
             return merged[0]
         return ("CAT", tuple(merged))
